@@ -3,4 +3,4 @@ from . import session
 FAMILIES = [('mix', 1.0), ('clean', 0.2), ('lockstep', 0.2), ('spec', 0.3), ('sync', 0.5), ('long', 0.02)]
 
 def main(ctx):
-    session.run(ctx, "C02", FAMILIES, quick_count=100, thorough_count=4000, prop_mod=None)
+    session.run(ctx, "C02", FAMILIES, quick_count=100, thorough_count=4000, prop_mod=session.PROP_MODS.get("C02"))
